@@ -1542,6 +1542,10 @@ func runC16(c *ctx) {
 		c16Names(c)
 		return
 	}
+	if strings.HasPrefix(c.replay, "sigclose ") {
+		c16ReplaySigClose(c, c.replay)
+		return
+	}
 	if strings.HasPrefix(c.replay, "wclose ") {
 		c16ReplayWC(c, c.replay)
 		return
@@ -1787,6 +1791,7 @@ func runC16(c *ctx) {
 	c16OpenAborts(c)
 	c16ConcurrentProbe(c)
 	c16WriteCloses(c)
+	c16SigCloses(c)
 	tL := time.Now()
 	for _, l := range [][3]bool{{true, true, false}, {true, false, true}, {true, true, true},
 		{false, true, false}, {false, false, true}, {false, true, true}} {
